@@ -262,12 +262,24 @@ def schedules(quick):
         ("first-generation-save-rename", "regen.validated#1=1200", [(150, "model", 1, "rename")]),
         ("first-generation-two-saves", "regen.validated#1=1200", [(150, "model", 1, "inplace"), (100, "model", 2, "inplace")]),
         ("first-generation-manifest-drop", "regen.validated#1=1200", [(150, "manifest-drop", 1, "inplace")]),
+        # "manifest-": what an earlier _package.yml said must not survive in the running watcher. A section is removed and the removal settles; later saves must
+        # leave that section's output alone. The last import is removed (the model no longer uses it); later saves must still be regenerated
+        ("manifest-section-dropped-then-saves", "", [(0, "model", 1, "inplace"), (0, "settle", 0, ""), (0, "manifest-drop", 2, "inplace"), (0, "settle", 0, ""), (0, "snap-dropped", 0, ""),
+                                                     (0, "model", 3, "inplace"), (0, "settle", 0, ""), (0, "lib", 4, "inplace")]),
+        ("manifest-section-dropped-then-saves-rename", "", [(0, "manifest-drop", 1, "rename"), (0, "settle", 0, ""), (0, "snap-dropped", 0, ""), (0, "model", 2, "rename"), (300, "model", 3, "rename")]),
+        ("manifest-last-import-removed", "", [(0, "noimport-model", 1, "inplace"), (0, "settle", 0, ""), (0, "manifest-noimports", 2, "inplace"), (0, "settle", 0, ""), (0, "noimport-model", 3, "inplace")]),
+        ("manifest-last-import-removed-fast", "", [(0, "noimport-model", 1, "inplace"), (50, "manifest-noimports", 2, "rename"), (50, "noimport-model", 3, "rename"), (400, "noimport-model", 4, "inplace")]),
+        ("manifest-imports-emptied", "", [(0, "noimport-model", 1, "inplace"), (0, "settle", 0, ""), (0, "manifest-empty-imports", 2, "inplace"), (0, "settle", 0, ""), (0, "noimport-model", 3, "inplace")]),
+        ("single-import-manifest-last-import-removed", "", [(0, "noimport-model", 1, "inplace"), (0, "settle", 0, ""), (0, "manifest-noimports", 2, "inplace"), (0, "settle", 0, ""), (0, "noimport-model", 3, "inplace")]),
         # the output is removed / overwritten by something else while the watcher is idle, then the package is saved again
         ("output-removed-then-save", "", [(0, "model", 1, "inplace"), (600, "rm-output", 2, "inplace"), (300, "model", 3, "inplace")]),
         ("output-removed-then-same-save", "", [(0, "model", 1, "inplace"), (600, "rm-output", 2, "inplace"), (300, "model", 1, "rename")]),
         ("output-clobbered-then-save", "", [(0, "model", 1, "inplace"), (600, "clobber-output", 2, "inplace"), (300, "model", 3, "inplace")]),
         ("output-python-removed-then-lib-save", "", [(0, "model", 1, "inplace"), (600, "rm-python-output", 2, "inplace"), (300, "lib", 3, "inplace")]),
     ]
+    only = os.environ.get("VERIF_C20_ONLY")
+    if only:        # experiments only: run the schedules whose name contains the text
+        return [x for x in out + forced if only in x[0]]
     out += forced if quick else forced * 1 + [("forced-validated2-gap%d" % g, "regen.validated#2=1200", [(0, "model", 1, "inplace"), (g, "model", 2, "inplace")]) for g in (20, 50, 100, 300, 600, 1100, 1300)]
     return out
 
@@ -328,8 +340,13 @@ def run(ctx):
             libsub = "LibSub0: !record\n  fields:\n    z: int\n" if name.startswith("subdir-") else None
             starts_before = w.counts()[0]
             invalid_seen = False
+            starts_at_last_save = starts_before
+            dropped_snapshot = None
+            final_manifest_text = None
             for gap, kind, v, how in steps:
                 time.sleep(gap / 1000.0)
+                if kind not in ("settle", "snap-dropped"):
+                    starts_at_last_save = w.counts()[0]
                 if kind == "model":
                     save(os.path.join(root, "main/model.yml"), model(v), how)
                     final_variant = v
@@ -421,6 +438,28 @@ def run(ctx):
                 elif kind == "manifest-restore":
                     cur_outputs = ("cpp", "python", "json", "matlab")
                     save(os.path.join(root, "main/_package.yml"), manifest(cur_outputs), how)
+                elif kind == "settle":
+                    # not a save: the script waits until the watcher has dealt with everything saved so far
+                    if not w.wait_quiescent_patient(starts_at_last_save + 1, limit_s=25):
+                        if not w.alive():
+                            break
+                        raise Inconclusive("%s: watcher not quiescent within 25 s wall in the middle of the script" % name)
+                    continue
+                elif kind == "snap-dropped":
+                    # the sections dropped from the manifest are settled: from here on nothing may write below their output directories
+                    dropped_snapshot = {k: x[3] for k, x in fsmon.snapshot(os.path.join(root, "out")).items()
+                                        if x[0] == "file" and k.split("/")[0] not in cur_outputs}
+                    continue
+                elif kind == "noimport-model":
+                    final_model_text = model(v).replace("    lib: Lib.LibRec?\n", "")
+                    save(os.path.join(root, "main/model.yml"), final_model_text, how)
+                    final_invalid = False
+                elif kind == "manifest-noimports":
+                    final_manifest_text = manifest(cur_outputs).replace("imports:\n  - ../lib\n", "")
+                    save(os.path.join(root, "main/_package.yml"), final_manifest_text, how)
+                elif kind == "manifest-empty-imports":
+                    final_manifest_text = manifest(cur_outputs).replace("imports:\n  - ../lib\n", "imports: []\n")
+                    save(os.path.join(root, "main/_package.yml"), final_manifest_text, how)
             ok = w.wait_quiescent_patient(starts_before + 1, limit_s=25)
             s, e, n = w.counts()
             verdict.update(regenerations=s, events=n)
@@ -440,6 +479,8 @@ def run(ctx):
             write_tree(ref, final_variant, cur_outputs, lib_text, single_import=single)
             if final_model_text is not None:
                 common.write_tree(ref, {"main/model.yml": final_model_text})
+            if final_manifest_text is not None:
+                common.write_tree(ref, {"main/_package.yml": final_manifest_text})
             if second is not None:
                 common.write_tree(ref, {"main/second.yml": second})
             if sub is not None:
@@ -476,6 +517,15 @@ def run(ctx):
                 stale = sorted(k for k in want if have.get(k) != want[k])
             ctx.case(name)
             ctx.count("kind." + name.split("-")[0])
+            if dropped_snapshot is not None:
+                # a one-shot generate of the final contents does not touch the output directories of sections that are no longer in the manifest
+                now = {k: x[3] for k, x in fsmon.snapshot(os.path.join(root, "out")).items() if x[0] == "file" and k.split("/")[0] not in cur_outputs}
+                touched = sorted(k for k in set(now) | set(dropped_snapshot) if now.get(k) != dropped_snapshot.get(k))
+                ctx.count("dropped-section-files-watched", len(dropped_snapshot))
+                if touched:
+                    ctx.violation("dropped-section-still-generated",
+                                  "%s: %d file(s) below the output directory of a section that had been removed from _package.yml (and the removal settled) were rewritten by a later regeneration (e.g. %s); a one-shot generate of the final contents does not touch them" % (name, len(touched), touched[:3]),
+                                  {"case_dir": root, "steps": steps, "touched": touched[:40]})
             if stale:
                 missing = [k for k in stale if k not in have]
                 ctx.violation("stale-output:%s" % ("forced" if name.startswith("forced") else "timed"),
